@@ -172,6 +172,55 @@ def check_byte_concat(chk, cls, encoding, dialect, tmp):
                           {'kind': 'concat', 'cls': cls, 'encoding': encoding, 'kindsrc': kind})
 
 
+def check_boundaries(chk, tmp, full):
+    """Round trips of LARGE files (beyond 64 KiB / 128 KiB, i.e. across every plausible read- or write-buffer
+    boundary): every data record has the same byte length R, and the first record is padded by 0..R-1 characters in
+    turn, so that over the sweep every byte of a record (in particular the CR and the LF of its terminator, a quote,
+    the halves of a multi-byte character) falls on every buffer offset."""
+    import petl as etl
+    variants = [('csv', 'utf-8', {}, 'path'), ('csv', 'utf-8', {}, 'memory'), ('csv', None, {}, 'gz'),
+                ('tsv', 'utf-8', {}, 'path'), ('csv', 'utf-16', {}, 'path'), ('csv', 'latin-1', {'lineterminator': '\n'}, 'path'),
+                ('csv', 'utf-8', {'quoting': csv.QUOTE_ALL}, 'bz2'), ('pickle', None, {}, 'path')]
+    if not full:
+        variants = variants[:5]
+    for fmt, enc, dialect, kind in variants:
+        cells = (u'ab', u'c\xe9') if enc not in (None,) else (u'ab', u'cd')
+        rowlen = None
+        for pad in range(0, 9):
+            rows = [[u'x' * pad + cells[0], cells[1]]] + [[cells[0], cells[1]] for _ in range(17000 if fmt != 'pickle' else 3000)]
+            t = [['f', 'g']] + rows
+            tgt = iolib.Target(kind, tmp, name='big_%s_%s_%d' % (fmt, kind, pad))
+            kw = dict(dialect)
+            if enc:
+                kw['encoding'] = enc
+            try:
+                if fmt == 'pickle':
+                    etl.topickle(t, tgt.src)
+                    back = etl.frompickle(tgt.read_source())
+                else:
+                    getattr(etl, 'to' + fmt)(t, tgt.src, **kw)
+                    back = getattr(etl, 'from' + fmt)(tgt.read_source(), **kw)
+                n = 0
+                bad = None
+                for i, r in enumerate(back):
+                    n += 1
+                    if tuple(r) != tuple(t[i]) if i < len(t) else True:
+                        bad = (i, tuple(r), tuple(t[i]) if i < len(t) else None)
+                        break
+                size = len(tgt.raw())
+            except Exception as e:
+                bad, n, size = ('raised', repr(e), None), 0, 0
+            chk.count(('boundary', fmt, enc, kind, pad))
+            chk.replayed += 1
+            if bad or n != len(t):
+                chk.violation({'op': 'to' + fmt, 'format': fmt, 'kind': 'large-roundtrip'},
+                              '%s encoding=%s %r source=%s, %d rows (%d bytes), first record padded by %d: read back %d rows; first difference %r'
+                              % (fmt, enc, dialect, kind, len(t), size, pad, n, bad),
+                              {'kind': 'boundary', 'fmt': fmt, 'enc': enc, 'dialect': dialect, 'source': kind, 'pad': pad})
+            if tgt.path and os.path.exists(tgt.path):
+                os.remove(tgt.path)
+
+
 def check_sources(chk):
     """Sources.tla: the decision table that maps a source argument to a source class, replayed on the real resolver."""
     from petl.io import sources as S
@@ -310,6 +359,7 @@ def run(tier, seed):
                 if enc in ('latin-1', 'cp1252') and (cls not in iolib.LATIN1_OK or cls == 'nul'):
                     continue
                 check_byte_concat(chk, cls, enc, DIALECTS[ci % len(DIALECTS)], tmp)
+        check_boundaries(chk, tmp, full)
     check_sources(chk)
     chk.sample({'kind': 'store-history', 'history': sel[0]})
     traces = record_traces(1500 if full else 250, seed)
